@@ -538,7 +538,8 @@ class SAMIWriter(BaseWriter):
                     attr, value, caption_set.layout_info)
 
         for lang in caption_set.get_languages():
-            lang_string = f'lang: {lang}'
+            # with the closing ";": "lang: en" is not declared by "lang: en-US;"
+            lang_string = f'lang: {lang};'
             if lang_string not in stylesheet:
                 stylesheet += self._recreate_style_block(
                     lang, {'lang': lang}, caption_set.get_layout_info(lang))
